@@ -61,6 +61,22 @@ def generate() -> dict[str, str]:
         lean_name='Negotiating.negotiate_scalars',
     )
     init = f'/-- `Negotiated.__init__`: the values `_negotiate` starts from (REFRESH.ABSENT, ExtendedMessage.INITIAL_SIZE) -/\ndef refreshAbsent : Int := {int(REFRESH.ABSENT)}\ndef initialSize : Int := {int(ExtendedMessage.INITIAL_SIZE)}\n'
+    # ---- Open.unpack_message: the fixed part of a received OPEN ------------------------------------------------------
+    from exabgp.bgp.message import Message
+    from exabgp.bgp.message.open import Open
+    from exabgp.bgp.message.open.version import Version
+
+    t3 = pylite.translate(
+        Open.unpack_message.__func__,
+        pylite.Spec(
+            cls='OpenFixed', fields={}, ret='bool', uses_now=False, kind='function', object_params=('cls', 'data', 'negotiated'),
+            opaque={'len(data)': ('dataLen', 'int'), 'data[0]': ('version', 'int')},
+            consts={'cls.MINIMUM_BODY_SIZE': int(Open.MINIMUM_BODY_SIZE), 'Version.BGP_4': int(Version.BGP_4), 'Message.HEADER_LEN': int(Message.HEADER_LEN)},
+            # the fixed part is accepted: the optional parameters are read next (M-OpenCodec `decodeOptional`)
+            const_exprs={'cls(data[0:9], Capabilities.unpack(data[9:]))': ('true', 'bool')},
+        ),
+        lean_name='OpenFixed.unpack_message',
+    )
     out = [
         '/-! `Negotiated.validate` of `exabgp/bgp/message/open/capability/negotiated.py`, translated by `harness/pylite.py`. -/',
         'set_option linter.unusedVariables false',
@@ -74,6 +90,9 @@ def generate() -> dict[str, str]:
         '',
         init,
         t2.lean,
+        pylite.lean_state_structure('OpenFixed', {}),
+        '',
+        t3.lean,
         'end Exa.Generated.PyNego',
         '',
     ]
